@@ -24,8 +24,8 @@ func runFault(prop string) *ShardResult {
 	cfgs := []core.Config{{SegSize: 128}, {SegSize: 64}, {SegSize: 4096}}
 	res.Bounds["workload_len"] = maxLen
 	res.Bounds["configs"] = cfgs
-	res.Bounds["fault_kinds"] = []string{"clean", "after-effect", "short-write"}
-	res.Bounds["fault_duration"] = []string{"transient", "persistent"}
+	res.Bounds["fault_kinds"] = []string{"clean", "after-effect", "short-write", "short-write reported as io.EOF"}
+	res.Bounds["fault_duration"] = []string{"transient", "persistent (same kind of step)", "every step of any kind until the call returns"}
 	alpha := func(m *core.Model) []core.Op {
 		ops := appendOps(m, [][]int{{4}, {4, 4}})
 		if m.Last > 0 {
@@ -60,7 +60,7 @@ func runFault(prop string) *ShardResult {
 	}
 	n := 0
 	outcomes := map[string]bool{}
-	for _, cfg := range cfgs {
+	runCfg := func(cfg core.Config) {
 		var rec func(cur []core.Op, m *core.Model)
 		rec = func(cur []core.Op, m *core.Model) {
 			if len(cur) > 0 {
@@ -72,8 +72,9 @@ func runFault(prop string) *ShardResult {
 					}
 				}
 				for at := 0; at < dry.FaultOps; at++ {
-					for _, kind := range []simdisk.FaultKind{simdisk.FaultClean, simdisk.FaultAfter, simdisk.FaultShort} {
-						for _, pers := range []bool{false, true} {
+					for _, kind := range []simdisk.FaultKind{simdisk.FaultClean, simdisk.FaultAfter, simdisk.FaultShort, simdisk.FaultShortEOF} {
+						for scope := 0; scope < 3; scope++ {
+							pers := scope == 1
 							n++
 							if *fNShards > 1 && n%*fNShards != *fShard {
 								continue
@@ -82,7 +83,10 @@ func runFault(prop string) *ShardResult {
 								res.Exhaustive = false
 								return
 							}
-							fp := &core.FaultPlan{At: at, Kind: kind, Persistent: pers}
+							fp := &core.FaultPlan{At: at, Kind: kind, Persistent: pers, UntilReturn: scope == 2}
+							if kind == simdisk.FaultShortEOF && scope != 0 {
+								continue
+							}
 							r := core.RunFault(cfg, cur, cont, fp)
 							res.Counts["evaluations"]++
 							res.Counts["transitions"]++
@@ -129,6 +133,27 @@ func runFault(prop string) *ShardResult {
 			}
 		}
 		rec(nil, core.NewModel())
+	}
+	// batches larger than the writer's 64 KiB buffer (the buffer is grown or flushed in the middle of a batch):
+	// as the first batch of a segment and after a small committed one. Few workloads: they go first.
+	{
+		alpha0, maxLen0 := alpha, maxLen
+		alpha = func(m *core.Model) []core.Op {
+			switch m.Last {
+			case 0:
+				return []core.Op{{K: "A", Idx: 1, Sizes: []int{40000, 40000}}, {K: "A", Idx: 1, Sizes: []int{8}}}
+			case 1:
+				return []core.Op{{K: "A", Idx: 2, Sizes: []int{40000, 40000}, Gen: 1}}
+			}
+			return nil
+		}
+		maxLen = 2
+		runCfg(core.Config{SegSize: 1 << 20})
+		res.Bounds["large_batch_workloads"] = "A(1,[40000,40000]); A(1,[8]) A(2,[40000,40000]) on a 1 MiB segment"
+		alpha, maxLen = alpha0, maxLen0
+	}
+	for _, cfg := range cfgs {
+		runCfg(cfg)
 	}
 	for o := range outcomes {
 		res.Sets["states"] = append(res.Sets["states"], o)
